@@ -477,7 +477,7 @@ func genCoreText(c *explore.C) Case {
 		var line []ssa.Run
 		nr := explore.Pick(c, "event.nruns", 1, 2)
 		for r := 0; r < nr; r++ {
-			line = append(line, ssa.Run{Block: explore.Pick(c, "event.block", "", `{\i1}`), Text: explore.Pick(c, "event.text", "x", "a, b", "7", "b ")})
+			line = append(line, ssa.Run{Block: explore.Pick(c, "event.block", "", `{\i1}`), Text: explore.Pick(c, "event.text", "x", "a, b", "7", "b ", "")})
 		}
 		e.Lines = append(e.Lines, line)
 	}
